@@ -385,8 +385,9 @@ func newWriterLog(cfg Cfg) *writerLog {
 	} else {
 		for _, rec := range cfg.Init {
 			p := strings.SplitN(rec, "~", 2)
-			if _, dup := w.ref[p[0]]; !dup {
-				w.ref[p[0]] = refEntry{msg: rparse(p[1]).String(), exact: true, t: "0"}
+			// an initial record is addressed like any other item: under the interceptor's image of its id
+			if _, dup := w.ref[w.icpt(p[0])]; !dup {
+				w.ref[w.icpt(p[0])] = refEntry{msg: rparse(p[1]).String(), exact: true, t: "0"}
 			}
 		}
 	}
@@ -687,6 +688,13 @@ func (w *writerLog) checkSub(m *lib.Monitor, in map[string]any, sig string, op O
 		return
 	}
 	if w.cfg.Kind == "val" {
+		if w.val == nil && w.valUnknown {
+			// the writer knows of no value, but a Set it was told had failed did store one
+			if len(got) == 1 {
+				st.last = strings.Split(got[0], "|")[0]
+			}
+			return
+		}
 		if w.val == nil {
 			if len(got) != 0 {
 				m.Violate(sig+"/seed/count", "seed for an absent value", in, "[]", part(o.ans, "seed"))
